@@ -66,6 +66,11 @@ class Sim:
         m = re.search(r"iter_(\d+)(?:/plate_(\d+))?", os.path.relpath(path, self.out))
         return (int(m.group(1)), int(m.group(2)) if m.group(2) is not None else None) if m else None
 
+    @staticmethod
+    def dir_tok(st):
+        """[iteration, plate] of a directory in the log; plate 99 = the iteration directory itself"""
+        return [st[0], 99 if st[1] is None else st[1]]
+
     def tick(self):
         """called before every filesystem mutation"""
         if self.in_operator:
@@ -231,7 +236,7 @@ class Sim:
             except RuntimeError as e:
                 m = re.search(r"continue simulation: (.*)$", str(e))
                 d = sim.step_of(m.group(1)) if m else None
-                sim.events.append({"ev": "scan", "raised": True, "dir": list(d) if d else [99, 99], "i": 0, "j": 0})
+                sim.events.append({"ev": "scan", "raised": True, "dir": sim.dir_tok(d) if d else [99, 99], "i": 0, "j": 0})
                 raise
             sim.events.append({"ev": "scan", "raised": False, "dir": [99, 99], "i": r[0], "j": r[1]})
             return r
@@ -304,7 +309,7 @@ class Sim:
                     shutil.rmtree(info)
                 finally:
                     self.in_operator = False
-                self.events.append({"ev": "operator_remove", "dir": list(self.step_of(info))})
+                self.events.append({"ev": "operator_remove", "dir": self.dir_tok(self.step_of(info))})
             elif what == "died":
                 return "died"
             elif what == "runaway":
